@@ -137,12 +137,12 @@ func GenC07(seed, index uint64) *Workload {
 	for i := 0; i < nexpr; i++ {
 		w.Exprs = append(w.Exprs, specOf(GenExpr(r.Fork(100+uint64(i)), bias)))
 	}
-	if r.P(1, 30) {
+	if r.P(1, 40) {
 		// big data: shared big documents, expressions over their long arrays
 		// (one of them with a wrong-typed element near the end of its long arrays);
-		// two thirds of these runs use hundreds instead of thousands of elements
+		// four fifths of these runs use hundreds instead of thousands of elements
 		w.Docs = []string{GenBigDoc(r.Fork(7), "T0!"), GenBigDoc(r.Fork(8), "T1")}
-		if r.P(2, 3) {
+		if r.P(4, 5) {
 			w.Docs = []string{GenMediumDoc(r.Fork(7), "T0!"), GenMediumDoc(r.Fork(8), "T1")}
 		}
 		ndocs = 2
